@@ -206,7 +206,7 @@ theorem lineSearch_sized {n m : Nat} {P : Problem α} (hP : ProblemSized n m P) 
     unfold lineSearch
     by_cases hst : stop s.tick
     · simp only [hst, if_true]
-      exact ⟨h, fun _ h2 => absurd h2 (by simp [hst])⟩
+      exact ⟨h, fun _ h2 => absurd h2 (by simp)⟩
     · simp only [hst, Bool.false_eq_true, if_false]
       have hp := lsPass_sized hP dir R hD pr c px q tauInit hc hpx hq s h
       cases hpass : lsPass P dir pr c px q tauInit s with
@@ -254,21 +254,190 @@ theorem updateStage_sized {n m : Nat} {P : Problem α} (hP : ProblemSized n m P)
     (ls : LS α D) (hc : Sized n m c) (hpx : PxSized n px) (hn : Sized n m ls.next) (hd : R ls.d) :
     Sized n m (updateStage P dir pr c px ls).1 ∧ PxSized n (updateStage P dir pr c px ls).2.1 ∧
     R (updateStage P dir pr c px ls).2.2.1 := by
+  have hpx' : ∀ γ L, PxSized n (evalProxGradStepInProx P { c with gamma := γ, L := L } px) :=
+    fun γ L => pxSized_evalInProx hP _ _ hc.xhat hpx.g
+  have hc' : ∀ γ L, Sized n m { c with gamma := γ, L := L } := fun γ L => sized_gammaL c γ L hc
+  have hch : ∀ a b, R (dir.changedGamma ls.d a b) := fun a b => hD.changed_R _ _ _ hd
   unfold updateStage dirUpdate
   split_ifs
   all_goals simp only []
   all_goals first
     | exact ⟨hc, hpx, hd⟩
-    | exact ⟨sized_gammaL c _ _ hc, pxSized_evalInProx hP _ _ hc.xhat hpx.g,
-        hD.update_R _ _ _ _ _ _ _ _ _ (hD.changed_R _ _ _ hd) hc.xhat hn.x
-          (pxSized_evalInProx hP _ _ hc.xhat hpx.g).p hn.p hpx.g hn.g⟩
-    | exact ⟨sized_gammaL c _ _ hc, pxSized_evalInProx hP _ _ hc.xhat hpx.g,
-        hD.update_R _ _ _ _ _ _ _ _ _ (hD.changed_R _ _ _ hd) hc.x hn.x hc.p hn.p hc.g hn.g⟩
-    | exact ⟨hc, hpx, hD.update_R _ _ _ _ _ _ _ _ _ (hD.changed_R _ _ _ hd) hc.xhat hn.x hpx.p hn.p
-        hpx.g hn.g⟩
-    | exact ⟨hc, hpx, hD.update_R _ _ _ _ _ _ _ _ _ (hD.changed_R _ _ _ hd) hc.x hn.x hc.p hn.p
-        hc.g hn.g⟩
+    | exact ⟨hc' _ _, hpx' _ _, hD.update_R _ _ _ _ _ _ _ _ _ (hch _ _) hc.xhat hn.x (hpx' _ _).p hn.p
+        (hpx' _ _).g hn.g⟩
+    | exact ⟨hc' _ _, hpx' _ _, hD.update_R _ _ _ _ _ _ _ _ _ (hch _ _) hc.x hn.x hc.p hn.p hc.g hn.g⟩
+    | exact ⟨hc, hpx, hD.update_R _ _ _ _ _ _ _ _ _ (hch _ _) hc.xhat hn.x hpx.p hn.p hpx.g hn.g⟩
+    | exact ⟨hc, hpx, hD.update_R _ _ _ _ _ _ _ _ _ (hch _ _) hc.x hn.x hc.p hn.p hc.g hn.g⟩
     | exact ⟨hc, hpx, hD.update_R _ _ _ _ _ _ _ _ _ hd hc.xhat hn.x hpx.p hn.p hpx.g hn.g⟩
     | exact ⟨hc, hpx, hD.update_R _ _ _ _ _ _ _ _ _ hd hc.x hn.x hc.p hn.p hc.g hn.g⟩
+
+/-- A progress callback whose iterate and `∇ψ(x̂)` have the right sizes. -/
+structure CbSized (n m : Nat) (cb : Callback α) : Prop where
+  it : Sized n m cb.it
+  gh : cb.gradPsiHat.length = n
+
+/-- Size invariant of the solver state at a loop head. -/
+structure SzInv (n m : Nat) (R : D → Prop) (s : St α D) : Prop where
+  curr : Sized n m s.curr
+  d : R s.d
+  cbs : ∀ cb ∈ s.cbs, CbSized n m cb
+
+theorem iterBody_d (P : Problem α) (dir : Direction D α) (pr : Params α) (stop : Nat → Bool)
+    (s : St α D) (eps : α) :
+    (stop (lsOf P dir pr stop s).tick = true → (iterBody P dir pr stop s eps).d = (lsOf P dir pr stop s).d) ∧
+    (stop (lsOf P dir pr stop s).tick = false →
+      (iterBody P dir pr stop s eps).d = (updateStage P dir pr s.curr s.prox (lsOf P dir pr stop s)).2.2.1) := by
+  unfold iterBody
+  simp only []
+  constructor <;> intro h <;> simp only [h, if_true, Bool.false_eq_true, if_false]
+
+theorem lsOf_sized {n m : Nat} {P : Problem α} (hP : ProblemSized n m P) (dir : Direction D α)
+    (R : D → Prop) (hD : DirSized n dir R) (pr : Params α) (stop : Nat → Bool) (s : St α D)
+    (hc : Sized n m s.curr) (hpx : PxSized n s.prox) (hd : R s.d) :
+    R (lsOf P dir pr stop s).d ∧
+    ((lsOf P dir pr stop s).fuelOut = false → stop (lsOf P dir pr stop s).tick = false →
+      Sized n m (lsOf P dir pr stop s).next) := by
+  have hds := directionStage_sized (m := m) dir R hD s hc hpx hd
+  have hinit : LSSized n R (directionStage dir s).2.2.2.1
+      (lsInit pr s (directionStage dir s).1 (directionStage dir s).2.1 (directionStage dir s).2.2.2.1) := by
+    refine ⟨fun he => ?_, fun h0 => h0, hds.1⟩
+    exfalso
+    have he' : (directionStage dir s).2.2.2.1 = (-1 : α) := he
+    rcases directionStage_tau dir s with h0 | h0 <;> rw [h0] at he' <;> norm_num at he'
+  have := lineSearch_sized hP dir R hD pr stop s.curr s.prox (directionStage dir s).2.2.1
+    (directionStage dir s).2.2.2.1 hc hpx hds.2 pr.lsFuel _ hinit (lsInit_fuelOut _ _ _ _ _)
+  unfold lsOf
+  exact ⟨this.1.d, this.2⟩
+
+/-- One pass of the loop body (from the state after the loop head) keeps the size invariant — unless
+    the model's line-search fuel ran out. -/
+theorem iterBody_sized {n m : Nat} {P : Problem α} (hP : ProblemSized n m P) (dir : Direction D α)
+    (R : D → Prop) (hD : DirSized n dir R) (pr : Params α) (stop : Nat → Bool) (s : St α D) (eps : α)
+    (h : SzInv n m R s) (hpx : PxSized n s.prox) (hf : (lsOf P dir pr stop s).fuelOut = false) :
+    SzInv n m R (iterBody P dir pr stop s eps) := by
+  have hls := lsOf_sized hP dir R hD pr stop s h.curr hpx h.d
+  have hd := iterBody_d P dir pr stop s eps
+  by_cases hst : stop (lsOf P dir pr stop s).tick = true
+  · have hi := iterBody_interrupted P dir pr stop s eps hst
+    exact ⟨by rw [hi.1]; exact h.curr, by rw [hd.1 hst]; exact hls.1, by rw [hi.2.2.2.2.1]; exact h.cbs⟩
+  · have hst' : stop (lsOf P dir pr stop s).tick = false := by simpa using hst
+    have hc := iterBody_completed P dir pr stop s eps hst'
+    have hn := hls.2 hf hst'
+    have hu := updateStage_sized hP dir R hD pr s.curr s.prox (lsOf P dir pr stop s) h.curr hpx hn hls.1
+    obtain ⟨cb, hcbs, _, _, _, _, hit, _, hgh⟩ := iterBody_callback P dir pr stop s eps hst'
+    refine ⟨by rw [hc.1]; exact hn, by rw [hd.2 hst']; exact hu.2.2, ?_⟩
+    intro c hcm
+    rw [hcbs] at hcm
+    rcases List.mem_cons.mp hcm with hcm | hcm
+    · rw [hcm]; exact ⟨by rw [hit]; exact hu.1, by rw [hgh]; exact hu.2.1.g⟩
+    · exact h.cbs c hcm
+
+theorem initQub_sized {n m : Nat} {P : Problem α} (hP : ProblemSized n m P) (pr : Params α)
+    (stop : Nat → Bool) (f : Nat) (c : Iterate α) (t b : Nat) (h : Sized n m c) :
+    Sized n m (initQub P pr stop f c t b).1 := by
+  induction f generalizing c t b with
+  | zero => simpa [initQub] using h
+  | succ f ih =>
+    unfold initQub
+    split_ifs
+    · exact h
+    · exact ih _ _ _ (sized_evalStep hP _ ⟨h.x, h.g⟩)
+    · exact h
+
+theorem initState_sized {n m : Nat} {P : Problem α} (hP : ProblemSized n m P) (d0 : D)
+    (pr : Params α) (stop : Nat → Bool) (x0 gV : Vec α) (gS : α) (hx0 : x0.length = n) (s : St α D)
+    (hi : initState P d0 pr stop x0 gV gS = .inr s) : Sized n m s.curr ∧ s.d = d0 ∧ s.cbs = [] := by
+  have hxg : XG n (initLipschitz P pr x0 gV gS).1 := by
+    unfold initLipschitz
+    simp only []
+    split_ifs
+    · exact ⟨hx0, by unfold initialLipschitz; simp only []; exact hP.pgp_grad _ hx0⟩
+    · exact ⟨hx0, by unfold evalPsiGradPsi; simp only []; exact hP.pgp_grad _ hx0⟩
+  unfold initState at hi
+  simp only [] at hi
+  split_ifs at hi
+  injection hi with hi; subst hi
+  exact ⟨initQub_sized hP pr stop _ _ _ _ (sized_evalStep hP _ hxg), rfl, rfl⟩
+
+/-- Sizes of what the caller's buffers hold afterwards. -/
+structure OutSized (n m : Nat) (r : Result α D) : Prop where
+  x : r.x.length = n
+  y : r.y.length = m
+  errz : r.errz.length = m
+
+theorem exitBlock_sized {n m : Nat} (pr : Params α) (s : St α D) (eps : α) (status : SolverStatus)
+    (x0 y Sig errz0 : Vec α) (h : Sized n m s.curr) (hx0 : x0.length = n) (hy : y.length = m)
+    (hS : Sig.length = m) (he : errz0.length = m) :
+    OutSized n m (exitBlock pr s eps status x0 y Sig errz0) := by
+  unfold exitBlock
+  simp only []
+  cases hw : (status == .Converged || status == .Interrupted || pr.alwaysOverwrite) <;>
+    simp only [if_true, if_false, Bool.false_eq_true]
+  · exact ⟨hx0, hy, he⟩
+  · refine ⟨h.xhat, h.yhat, ?_⟩
+    split_ifs
+    · rw [vdiv_length, vsub_length, h.yhat, hy, hS]; simp
+    · exact he
+
+/-- **Sizes are preserved by a solve on a well-formed call**: every iterate handed to the progress
+    callback has `x`, `∇ψ(x)`, `x̂`, `p` of size `n` and `ŷ` of size `m`, the `∇ψ(x̂)` handed with it
+    has size `n`, and `x`, `y`, `err_z` come back with sizes `n`, `m`, `m` whatever the exit path
+    (model fuel not exhausted). -/
+theorem run_sized_fuel {n m : Nat} {P : Problem α} (hP : ProblemSized n m P) (dir : Direction D α)
+    (R : D → Prop) (hD : DirSized n dir R) (d0 : D) (hd0 : R d0) (pr : Params α) (stop : Nat → Bool)
+    (oot : Bool) (x0 y Sig errz0 gV : Vec α) (gS iS : α) (hx0 : x0.length = n) (hy : y.length = m)
+    (hS : Sig.length = m) (he : errz0.length = m)
+    (hfuel : (run P dir d0 pr stop oot x0 y Sig errz0 gV gS iS).fuelOut = false) :
+    (∀ cb ∈ (run P dir d0 pr stop oot x0 y Sig errz0 gV gS iS).callbacks, CbSized n m cb) ∧
+    OutSized n m (run P dir d0 pr stop oot x0 y Sig errz0 gV gS iS) := by
+  rcases run_cases P dir d0 pr stop oot x0 y Sig errz0 gV gS iS
+    (fun s => s.fuelOut = true ∨ SzInv n m R s)
+    (fun s hi => by
+      have h := initState_sized hP d0 pr stop x0 gV gS hx0 s hi
+      exact .inr ⟨h.1, by rw [h.2.1]; exact hd0, by rw [h.2.2]; simp⟩)
+    (fun s hI _ => by
+      have hs := headStep_same P pr stop oot s
+      rcases hI with hI | hI
+      · left; rw [iterBody_fuelOut, hs.2.2.2.2.1, hI]; rfl
+      · cases hfo : (iterBody P dir pr stop (headStep P pr stop oot s).1
+            (headStep P pr stop oot s).2.1).fuelOut
+        · right
+          rw [iterBody_fuelOut] at hfo
+          have hlsf : (lsOf P dir pr stop (headStep P pr stop oot s).1).fuelOut = false := by
+            cases hx : (lsOf P dir pr stop (headStep P pr stop oot s).1).fuelOut
+            · rfl
+            · rw [hx] at hfo; simp at hfo
+          have hd : (headStep P pr stop oot s).1.d = s.d := by unfold headStep; rfl
+          exact iterBody_sized hP dir R hD pr stop _ _
+            ⟨by rw [hs.1]; exact hI.curr, by rw [hd]; exact hI.d, by rw [hs.2.2.2.1]; exact hI.cbs⟩
+            (headStep_sized hP pr stop oot s hI.curr) hlsf
+        · left; rfl)
+    hfuel with ⟨t, ht⟩ | ⟨s', hI, _, hex⟩
+  · unfold run; rw [ht]
+    exact ⟨by simp, ⟨hx0, hy, he⟩⟩
+  · rw [hex] at hfuel ⊢
+    have hs := headStep_same P pr stop oot s'
+    rw [(exitBlock_spec pr _ _ _ x0 y Sig errz0).2.2.2.2.2.1, hs.2.2.2.2.1] at hfuel
+    rcases hI with hI | hI
+    · rw [hI] at hfuel; exact absurd hfuel (by decide)
+    · refine ⟨?_, exitBlock_sized pr _ _ _ x0 y Sig errz0 (by rw [hs.1]; exact hI.curr) hx0 hy hS he⟩
+      intro cb hcb
+      rw [exitBlock_callbacks, hs.2.2.2.1, hs.1] at hcb
+      rcases List.mem_append.mp hcb with hcb | hcb
+      · exact hI.cbs cb (List.mem_reverse.mp hcb)
+      · rw [List.mem_singleton] at hcb
+        rw [hcb]
+        exact ⟨hI.curr, (headStep_sized hP pr stop oot s' hI.curr).g⟩
+
+/-- `run_sized_fuel` with the fuel hypothesis discharged (`FuelOK`, stop flag never lowered). -/
+theorem run_sized {n m : Nat} {P : Problem α} (hP : ProblemSized n m P) (dir : Direction D α)
+    (R : D → Prop) (hD : DirSized n dir R) (d0 : D) (hd0 : R d0) (pr : Params α) (stop : Nat → Bool)
+    (hm : StopMono stop) (N M : Nat) (hF : FuelOK pr N M)
+    (oot : Bool) (x0 y Sig errz0 gV : Vec α) (gS iS : α) (hx0 : x0.length = n) (hy : y.length = m)
+    (hS : Sig.length = m) (he : errz0.length = m) :
+    (∀ cb ∈ (run P dir d0 pr stop oot x0 y Sig errz0 gV gS iS).callbacks, CbSized n m cb) ∧
+    OutSized n m (run P dir d0 pr stop oot x0 y Sig errz0 gV gS iS) :=
+  run_sized_fuel hP dir R hD d0 hd0 pr stop oot x0 y Sig errz0 gV gS iS hx0 hy hS he
+    (run_fuel P dir d0 pr stop hm N M hF oot x0 y Sig errz0 gV gS iS)
 
 end Alpaqa.Zerofpr
